@@ -397,11 +397,11 @@ func runC18(c *Ctx) {
 				// must be on the edge len(msg) <= len(buf)
 				if !hasFact(ret, func(ft fact) bool {
 					cm, ok := normCmp(ft.Cond, ft.Val)
-					return ok && cm.Op == token.LEQ && isLenOf(cm.X, func(v ssa.Value) bool { return v == msg }) && isLenOf(cm.Y, func(v ssa.Value) bool { return v == ssa.Value(buf) })
+					return ok && cm.Op == token.LEQ && isLenOf(cm.X, func(v ssa.Value) bool { return v == msg }) && isLenOf(cm.Y, func(v ssa.Value) bool { return sameOrigin(v, ssa.Value(buf)) })
 				}) {
 					o.Fail(ret.Pos(), "Read reports len(message) bytes although the buffer may be shorter (more bytes reported than copied)")
 				}
-			case isLenOf(n, func(v ssa.Value) bool { return v == ssa.Value(buf) }):
+			case isLenOf(n, func(v ssa.Value) bool { return sameOrigin(v, ssa.Value(buf)) }):
 			default:
 				if cl, ok := n.(*ssa.Call); ok && isCall(cl, "builtin.copy") || isCall2(n, "builtin.min") {
 					break
@@ -462,7 +462,7 @@ func runC18(c *Ctx) {
 	o = c.Obl("R6", fname(push), "when a reorder burst completes the stack is appended to the queue (queue = append(queue, stack...)) and then reset to nil before the lock is released: no aliasing, no second delivery", 2)
 	for _, dir := range []struct{ q, s string }{{"queue0to1", "stack0"}, {"queue1to0", "stack1"}} {
 		var flush *ssa.Store
-		instrsOf(push, func(in ssa.Instruction) {
+		instrsOfU(push, func(in ssa.Instruction) {
 			st, ok := in.(*ssa.Store)
 			if !ok || !isFieldStore(st, "test.Bridge", dir.q) {
 				return
@@ -488,7 +488,7 @@ func runC18(c *Ctx) {
 		if ok, bad := mustPassU(posAfter(flush), isReturn, isReset); !ok {
 			o.Fail(bad.Pos(), "after flushing %s into the queue the stack is not reset to nil: the next reorder burst delivers the old messages again", dir.s)
 		}
-		instrsOf(push, func(in ssa.Instruction) {
+		instrsOfU(push, func(in ssa.Instruction) {
 			if st, ok := in.(*ssa.Store); ok && isFieldStore(st, "test.Bridge", dir.s) && !isNilConst(st.Val) {
 				if _, _, ok := appendOf(st.Val, 0); !ok {
 					o.Fail(in.Pos(), "%s is set to something else than nil or append(%s, data) (re-slicing keeps the backing array shared with the queue)", dir.s, dir.s)
@@ -603,7 +603,7 @@ func appendOf(v ssa.Value, depth int) (dst, src ssa.Value, ok bool) {
 	}
 	sub := func(x ssa.Value) ssa.Value {
 		for k, prm := range h.Params {
-			if x == ssa.Value(prm) && k < len(cl.Call.Args) {
+			if sameOrigin(x, ssa.Value(prm)) && k < len(cl.Call.Args) {
 				return cl.Call.Args[k]
 			}
 		}
